@@ -84,6 +84,7 @@ func cmdG(args []string) {
 	logdir := fs.String("logdir", "", "write every query here")
 	recFails := fs.String("recursion-fails", "", "exceeding the recursion bound is a violation of this obligation id")
 	maxdepth := fs.Int("maxdepth", 60, "recursion depth bound")
+	stubs := fs.String("stubs", "", "environment stub set: archive:<namelen>:<entries>")
 	fs.Parse(args)
 
 	ov := map[string][]byte{}
@@ -131,6 +132,11 @@ func cmdG(args []string) {
 		x.Cfg.MapReverse = *mapRev
 		x.Cfg.RecursionFails = *recFails
 		x.Cfg.MaxDepth = *maxdepth
+		if strings.HasPrefix(*stubs, "archive:") {
+			var nl, ne int
+			fmt.Sscanf(*stubs, "archive:%d:%d", &nl, &ne)
+			gofe.RegisterArchiveStubs(x, nl, ne)
+		}
 		st := time.Now()
 		r := HarnessResult{Name: h.Name(), Unwind: *unwind}
 		func() {
